@@ -185,9 +185,15 @@ fn bit_at(bytes: &[u8], i: usize) -> bool {
 
 /// `n` copies of the only symbol are appended to an arbitrary pre-state `(bytes, bits)`.
 fn push_one_entry(max_bits: usize, n: usize) {
+    push_one_entry_widths(1, max_bits, n)
+}
+
+/// As `push_one_entry` with the code length in `min_bits..=max_bits` (concrete when both are equal: code words wider
+/// than a byte span three bytes of the pending-bits register when they start late in a shared byte).
+fn push_one_entry_widths(min_bits: usize, max_bits: usize, n: usize) {
     let s = sym::u8();
-    let w = sym::upto(max_bits);
-    sym::assume(w >= 1);
+    let w = if min_bits == max_bits { max_bits } else { sym::upto(max_bits) };
+    sym::assume(w >= min_bits);
     let cw = sym::u64();
     sym::assume(cw < (1u64 << w));
     let code = Code::<u8>::encode_only(&[(s, w, cw)]);
@@ -232,6 +238,12 @@ fn push_one_entry(max_bits: usize, n: usize) {
 #[cfg_attr(kani, kani::proof, kani::unwind(5))]
 pub fn c06_push_one_entry_small() {
     push_one_entry(4, 2);
+}
+
+// @h memw=7 prop=C06 tier=quick kind=proof timeout=900 unwindset="from_fn|drop_glue|drop_in_place:258" inst="push_symbols + Encoder, one-entry code WIDER than a byte" bounds="code length 10 bits, any code word, pre-state of 0..16 bits (every bit offset of the shared byte), 2 symbols" desc="as c06_push_one_entry_small for a code word that, started late in a shared byte, makes pending + code bits exceed 16"
+#[cfg_attr(kani, kani::proof, kani::unwind(6))]
+pub fn c06_push_one_entry_wide10() {
+    push_one_entry_widths(10, 10, 2);
 }
 
 // @h prop=C06 tier=thorough kind=proof timeout=3000 unwindset="from_fn|drop_glue|drop_in_place:258" inst="push_symbols + Encoder, one-entry code" bounds="code length 1..8 bits, any code word, pre-state of <= 16 bits at any alignment, 3 symbols" desc="as c06_push_one_entry_small"
